@@ -99,6 +99,11 @@ CUSTOM_NAMES = {
 }
 
 
+INDEX_SENSITIVE = {"whole_type", "i8_many_before_later", "n255_holes", "n256_gapless", "n257_holes", "gapless_from_min",
+                   "gapless_to_max", "touch_min_max", "first_run_at_min", "neg_later_runs", "neg_many_runs",
+                   "run_at_min_then_neg", "gapless_neg", "gapless_span0", "last_run_at_max", "narrow_limits_holes"}
+
+
 def catalogue_cases(ids: IdGen, tier: str, seed: int = 1):
     """every catalogue shape; quick: three reprs per shape (rotating with the seed), thorough: all reprs"""
     rng = random.Random(12345 + (seed if tier == "quick" else 0))
@@ -132,6 +137,15 @@ def catalogue_cases(ids: IdGen, tier: str, seed: int = 1):
                                    split=[3, 5, 4] if (si + ri) % 3 == 0 else None), d)
             add_sorted(cfg, d, si + ri)
             cases.append(Case(ids.next(), d, cfg, "plain", {"part": "catalogue"}))
+            if sname in INDEX_SENSITIVE:
+                # index / offset arithmetic differs per iterator mode: build every mode for these shapes
+                for mi, im in enumerate(m for m in ITER_MODES if gap or m != "range"):
+                    tm = {"as_str": STR_MODES[(si + mi) % 3], "from_str": STR_MODES[(si + mi + 1) % 3],
+                          "FromStr": STR_MODES[(si + mi + 2) % 3], "iter": im}
+                    without = ("range",) if im == "table_inline" else ()
+                    cases.append(Case(ids.next(), d, legalize(cfg_all(tm, without=without), d), "plain",
+                                      {"part": "catalogue"}))
+                continue
             if tier != "quick" or (si + ri) % 2 == 0:
                 # the same declaration under a second, explicit mode tuple with range()
                 tuples2 = mode_tuples(gap, with_range=True)
